@@ -18,7 +18,6 @@ class Bar:
         self.time_signature_numerator = numerator
         self.time_signature_denominator = denominator
         self.key_signature = key
-        self.default_channel = default_channel
 
         # Adjust sequence
         self.sequence.normalise()
@@ -56,9 +55,14 @@ class Bar:
         self.sequence._abs_stale = True
 
     def copy(self) -> Bar:
+        # The time signature message of the bar may have been moved to another channel since the bar was built
+        time_signature = next((msg for msg in self.sequence.rel._messages
+                               if msg.message_type == MessageType.TIME_SIGNATURE), None)
+        channel = time_signature.channel if time_signature is not None else 0
+
         cpy = self.__class__(self.sequence.copy(),
                              self.time_signature_numerator, self.time_signature_denominator, self.key_signature,
-                             self.default_channel)
+                             channel)
         return cpy
 
     def is_empty(self) -> bool:
